@@ -283,7 +283,8 @@ theorem stepErrs_nil_iff (s : Sem) (hrefl : ∀ t x, s.valueEq t x x = true) (en
         · exact absurd h hb
         · exact h
 
-/-- **C03, validity clause.**  The (repaired) decoder reports no error exactly when the attribute set is valid. -/
+/-- **C03, validity clause.**  The decoder (current code, `legacy = false`) reports no error exactly when
+    the attribute set is valid — for every group, including groups with `use="prohibited"` declarations. -/
 theorem attrs_valid_iff (s : Sem) (env : Env) (o : Opts) (G : Group) (A : List Attr)
     (hleg : o.legacy = false) (hrefl : ∀ t x, s.valueEq t x x = true) (hwf : WF s G)
     (hnd : (G.decls.map (·.name)).Nodup) (hg : (env.globals.map (·.name)).Nodup)
@@ -473,75 +474,11 @@ theorem decoded_absent_iff (env : Env) (o : Opts) (G : Group) (A : List Attr)
 
 
 
-/-! ## The pinned algorithm (`legacy = true`) -/
+/-! ## The step as it was before fix 9474062 (`legacy = true`, finding C03-F1 — fixed)
 
-def NoProhibited (G : Group) : Prop := ∀ d ∈ G.decls, d.use ≠ .prohibited
-
-instance (G : Group) : Decidable (NoProhibited G) := by unfold NoProhibited; infer_instance
-
-theorem stepErrs_legacy (s : Sem) (env : Env) (o o' : Opts) (G : Group) (hnp : NoProhibited G)
-    (a : Attr) : stepErrs s env o G a = stepErrs s env o' G a := by
-  unfold stepErrs
-  cases hlk : lookup G.decls a.1 with
-  | none => rfl
-  | some d =>
-    have hu := hnp d (lookup_some_mem hlk).1
-    have hb : (d.use == Use.prohibited) = false := by simpa using hu
-    simp only [declaredErrs, hb, Bool.false_eq_true, if_false]
-
-theorem stepItem_legacy (env : Env) (o o' : Opts) (G : Group) (hnp : NoProhibited G)
-    (a : Attr) : stepItem env o G a = stepItem env o' G a := by
-  unfold stepItem
-  cases hlk : lookup G.decls a.1 with
-  | none => rfl
-  | some d =>
-    have hu := hnp d (lookup_some_mem hlk).1
-    have hb : (d.use == Use.prohibited) = false := by simpa using hu
-    simp only [declaredItem, hb, Bool.false_and, Bool.false_eq_true, if_false]
-
-theorem additional_legacy (o o' : Opts) (hud : o.useDefaults = o'.useDefaults) (G : Group)
-    (hnp : NoProhibited G) (A : List Attr) : additional o G A = additional o' G A := by
-  unfold additional
-  apply filterMap_congr'
-  intro d hd
-  have hb : (d.use == Use.prohibited) = false := by simpa using hnp d hd
-  simp only [constraintOf, hb, Bool.false_and, Bool.false_eq_true, if_false, hud]
-
-/-- On groups without `use="prohibited"` declarations the pinned algorithm and the repaired one
-    collect the same errors and decode the same data. -/
-theorem pinned_eq_repaired (s : Sem) (env : Env) (o : Opts) (G : Group) (A : List Attr)
-    (hnp : NoProhibited G) :
-    errors s env o G A = errors s env { o with legacy := false } G A ∧
-    decoded env o G A = decoded env { o with legacy := false } G A := by
-  have ha := additional_legacy o { o with legacy := false } rfl G hnp A
-  constructor
-  · unfold errors augmented
-    rw [ha]
-    congr 1
-    apply flatMap_congr'
-    intro a _
-    exact stepErrs_legacy s env o _ G hnp a
-  · unfold decoded augmented filled augmented
-    rw [ha]
-    congr 1
-    apply filterMap_congr'
-    intro a _
-    exact stepItem_legacy env o _ G hnp a
-
-/-
-  Full statement (false for the pinned code, see the counter-examples below):
-     ∀ o G A, WF … → (errors s env o G A = [] ↔ Ok s env G A)           with o.legacy = true
--/
-/-- **C03, validity clause for the pinned code** (`legacy = true`), guard: the group has no
-    `use="prohibited"` declaration. -/
-theorem attrs_valid_iff_pinned_partial (s : Sem) (env : Env) (o : Opts) (G : Group) (A : List Attr)
-    (hnp : NoProhibited G)
-    (hrefl : ∀ t x, s.valueEq t x x = true) (hwf : WF s G)
-    (hnd : (G.decls.map (·.name)).Nodup) (hg : (env.globals.map (·.name)).Nodup)
-    (hxsi : ∀ d ∈ G.decls, d.name.ns ≠ xsiNs) :
-    errors s env o G A = [] ↔ Ok s env G A := by
-  rw [(pinned_eq_repaired s env o G A hnp).1]
-  exact attrs_valid_iff s env _ G A rfl hrefl hwf hnd hg hxsi
+  The current code satisfies the unconditional statement `attrs_valid_iff` (no guard on prohibited
+  declarations).  The pre-fix behaviour survives only in the two counter-example theorems below, which
+  are about the old step of the model (`Opts.legacy = true`), not about /repo. -/
 
 /-- plain string semantics used by the concrete witnesses: every lexical form valid, value
     equality = string equality -/
@@ -553,12 +490,14 @@ def gProhibitedFixed : Group :=
   { decls := [{ name := qa, use := .prohibited, fixed := some "3", ty := 0 }], any := none }
 def envEmpty : Env := { globals := [], loaded := [] }
 
-/-- C03-F1, witness 1: the pinned algorithm reports no error for `<e a="3"/>` although the
-    attribute set is not valid (the only declaration of `a` is prohibited and there is no wildcard). -/
-theorem pinned_counterexample_admits :
+/-- C03-F1 (fixed), witness 1: the OLD step reported no error for `<e a="3"/>` although the attribute
+    set is not valid (the only declaration of `a` is prohibited and there is no wildcard); the current
+    step reports "prohibited". -/
+theorem oldstep_admits_counterexample :
     errors semStr envEmpty { legacy := true } gProhibitedFixed [(qa, "3")] = [] ∧
-    ¬ Ok semStr envEmpty gProhibitedFixed [(qa, "3")] := by
-  refine ⟨by decide, ?_⟩
+    ¬ Ok semStr envEmpty gProhibitedFixed [(qa, "3")] ∧
+    errors semStr envEmpty { legacy := false } gProhibitedFixed [(qa, "3")] = [.prohibited qa] := by
+  refine ⟨by decide, ?_, by decide⟩
   rintro ⟨-, h⟩
   have h := h (qa, "3") (by simp)
   rcases h with ⟨d, ⟨hd, -, hu⟩, -⟩ | ⟨-, (⟨⟨hx, -⟩, -⟩ | ⟨-, a, ha, -⟩)⟩
@@ -568,16 +507,13 @@ theorem pinned_counterexample_admits :
   · exact absurd hx (by decide)
   · simp [gProhibitedFixed] at ha
 
-/-- C03-F1, witness 2: for `<e/>` the pinned algorithm injects the fixed value of the prohibited
-    declaration into the decoded data; the repaired one reports nothing. -/
-theorem pinned_counterexample_injects :
+/-- C03-F1 (fixed), witness 2: for `<e/>` the OLD step injected the fixed value of the prohibited
+    declaration into the decoded data; the current one reports nothing. -/
+theorem oldstep_injects_counterexample :
     decoded envEmpty { legacy := true } gProhibitedFixed [] = [(qa, .typed 0 "3")] ∧
     decoded envEmpty { legacy := false } gProhibitedFixed [] = [] := by
   constructor <;> decide
 
-/-- the repaired algorithm rejects witness 1 -/
-example : errors semStr envEmpty { legacy := false } gProhibitedFixed [(qa, "3")] = [.prohibited qa] := by
-  decide
 
 
 
@@ -737,8 +673,6 @@ example : decoded env { useDefaults := false, fillMissing := true } G [(qb, "1")
     [(qb, .typed 0 "1"), (qq, .typed 0 "3"), (qa, .nil), (⟨"", "c"⟩, .nil)] := by decide
 example : AbsentOut {} G qq (.typed 0 "3") :=
   (decoded_absent_iff env {} G [(qb, "1")] rfl nd qq (by intro v h; simp [qq, qb] at h) _).mp (by decide)
-/-- the pinned-code guard is satisfiable by a non-trivial group -/
-example : NoProhibited { G with decls := G.decls.tail } := by decide
 end Demo
 
 
